@@ -113,7 +113,7 @@ chk('C10', 'exploration',
     'interval-overlap monitor over the event log', '4 C10', 'world,director,watchdog,lockset,runner')
 chk('C11', 'exploration',
     'Byte-level buffer accounting for stream uploads, part look-ahead for non-seekable downloads and IO-queue occupancy, under small '
-    'limits with gates making the lowest part the slowest; thorough adds real 5 MiB parts with a tracemalloc peak; pending IO bytes count every bytes-like object an IO task carries; a lockset monitor sits on the manager's window semaphores.',
+    'limits with gates making the lowest part the slowest; thorough adds real 5 MiB parts with a tracemalloc peak; pending IO bytes count every bytes-like object an IO task carries; a lockset monitor sits on the window semaphores of the manager.',
     'Measured quantities are lower bounds; evaluated on the fault-free prefix.', 'buffer/look-ahead monitors over the event log',
     '4 C11', 'world,director,lockset,runner')
 chk('C12', 'exploration',
